@@ -135,6 +135,13 @@ class C07(Harness):
             for v in (None, 'L1', 'L2'):
                 ops.append(['attach', 'L0', 'c', v])
             ops.append(['attach', 'L2', 'c', 'L1'])
+        alld = cfg['deps'] + cfg.get('deps2', [])
+        if any(p.startswith('a.') for p in alld) and any(p.startswith('c.') for p in alld):
+            # both sub-objects replaced by one update (one batch, two events for the same method), in either keyword order
+            for va in ('M0', 'M1'):
+                for vc in ('L0', 'L2'):
+                    ops.append(['attach2', 'T', 'a+c', va, vc])
+                    ops.append(['attach2', 'T', 'c+a', va, vc])
         if len(cfg['deps']) == 1 and not cfg.get('deps2'):
             # the dependent method raises while it is being invoked for this replacement
             ops.append(['attach_r', 'M0', 'b', 'L2'])
@@ -185,7 +192,11 @@ class C07(Harness):
             before2 = {p: self.reach(model, p) for p in cfg.get('deps2', [])}
             del log[:]
             try:
-                if op[0] in ('attach', 'attach_r'):
+                if op[0] == 'attach2':
+                    model['T']['a'], model['T']['c'] = op[3], op[4]
+                    kw = [('a', objs[op[3]]), ('c', objs[op[4]])]
+                    objs['T'].param.update(**dict(kw if op[2] == 'a+c' else kw[::-1]))
+                elif op[0] in ('attach', 'attach_r'):
                     model[op[1]][op[2]] = op[3]
                     if op[0] == 'attach_r':
                         w['flags']['raise'] = True
@@ -218,14 +229,14 @@ class C07(Harness):
                 if v0 != BOT and v1 != BOT:
                     if v0 != v1:
                         must.append(p)
-                    elif (r0 or r1) and (c0 != c1 or op[0] in ('attach', 'attach_r')):
+                    elif (r0 or r1) and (c0 != c1 or op[0] in ('attach', 'attach_r', 'attach2')):
                         either.append(p)       # equal, but the comparison involves Parameterized values (no defined equality)
                 elif c0 != c1 or (v0 == BOT) != (v1 == BOT):
                     either.append(p)           # the path (or a prefix of it) changed resolution
             n = log.count('cb')
             if not last:
                 continue
-            key = dict(op=op[0], deps='+'.join(cfg['deps']), target='%s.%s' % (op[1], op[2]) if op[0] in ('attach', 'attach_r') else 'leaf')
+            key = dict(op=op[0], deps='+'.join(cfg['deps']), target='%s.%s' % (op[1], op[2]) if op[0] in ('attach', 'attach_r', 'attach2') else 'leaf')
             if 'pinned' in cfg:
                 key['pinned'] = cfg['finding']
             if must:
